@@ -626,8 +626,16 @@ func (u *Unit) ensureWraps() {
 
 func (u *Unit) freshError(st *state, t types.Type, comps []Val) *Val {
 	u.ensureWraps()
-	id := u.alloc(st, "1")
+	idTerm := u.alloc(st, "1")
+	id := u.ctx.freshConst("errid", SInt)
+	u.ctx.assert("err", eq(id, idTerm))
 	for _, c := range comps {
+		if !isAtomic(c.S[1]) || strings.HasPrefix(c.S[1], "(") {
+			continue
+		}
+		cid := u.ctx.freshConst("errc", SInt)
+		u.ctx.assert("err", eq(cid, c.S[1]))
+		c.S = []string{c.S[0], cid}
 		// r wraps c and everything c wraps
 		u.ctx.assert("err", implies(not(eq(c.S[0], "0")), and(app(wrapsFn, id, c.S[1]),
 			fmt.Sprintf("(forall ((z! Int)) (! (=> (%s %s z!) (%s %s z!)) :pattern ((%s %s z!))))", wrapsFn, c.S[1], wrapsFn, id, wrapsFn, c.S[1]))))
